@@ -472,6 +472,10 @@ pub fn check_view(v: &View, rcx: &RecCtx, out: &mut Vec<Violation>) {
     check_c04_c12(v, rcx, out);
     // C15: a record equals its decode-after-encode image (and hashes like it)
     if rcx.in_scope {
+        if v.deep && matches!(v.rt_bytes, Some(None)) {
+            out.push(viol("C15", "C15/no-decode-after-encode-image",
+                format!("{} record {} has no decode-after-encode image to be equal to: its own encoding is rejected", rcx.origin, hex(&v.encoded))));
+        }
         for (name, rt) in [("bytes", &v.rt_bytes), ("text", &v.rt_text), ("json", &v.rt_json)] {
             if let Some(Some(l)) = rt {
                 if !l.eq_orig || !l.eq_orig_rev {
